@@ -42,11 +42,10 @@ def run(ctx, rep):
         else:
             rep.holds("O1", f, con, "attribute reads fit the guarded types", node=br)
     # the chain ends in a raise
-    top = [n for n in own_nodes(f.node) if isinstance(n, ast.If) and getattr(n, "_parent", None) is f.node]
-    node = top[0] if top else None
-    while node is not None and len(node.orelse) == 1 and isinstance(node.orelse[0], ast.If):
-        node = node.orelse[0]
-    rep.check(node is not None and node.orelse and isinstance(node.orelse[-1], ast.Raise), "O1", f, "fall-through", "unsupported pairs raise TypeError",
+    from ..astutil import always_exits, body_wo_doc
+    body = body_wo_doc(f.node)
+    ends_in_raise = bool(body) and (isinstance(body[-1], ast.Raise) or (isinstance(body[-1], ast.If) and always_exits([body[-1]])))
+    rep.check(ends_in_raise and all(r.value is not None for r in returns(f)), "O1", f, "fall-through", "unsupported pairs raise TypeError",
               "an unsupported type pair falls through without an error", node=f.node)
     # ---- O3
     for name in ("_tensor_product_MProcess_MProcess", "_tensor_product_StateEnsemble_StateEnsemble", "_tensor_product_Povm_Povm"):
@@ -234,7 +233,10 @@ def _p2_hs(ctx, rep):
     # the vector that is permuted: kron of the row-major flattened operands, first operand first
     perm_apps = [n for n in own_nodes(h.node) if isinstance(n, ast.BinOp) and isinstance(n.op, ast.MatMult)]
     fv = None
-    for nm, v in defs.items():
+    # both Kronecker products are looked for wherever they are written (bound to a local or used in place)
+    krons = [n for n in own_nodes(h.node) if kron_args(n) is not None]
+    for v in krons:
+        nm = unparse(v)[:40]
         e = deep_inline(h, v)
         ka = kron_args(e)
         if ka is not None:
@@ -243,7 +245,8 @@ def _p2_hs(ctx, rep):
             if o1 and o2:
                 fv = (nm, o1, unparse(b1), o2, unparse(b2))
     perm = None
-    for nm, v in defs.items():
+    for v in krons:
+        nm = unparse(v)[:40]
         e = deep_inline(h, v)
         ka = kron_args(e)
         if ka is not None and kron_args(ka[0]) is not None and eye_of(ka[1]) is not None:
